@@ -119,6 +119,23 @@ fn reps_for(fingerprint: bool, reliable: bool, cred: u8) -> Vec<Rep> {
             realm: REALM,
             anon: false,
         },
+        // a 438 whose integrity does not verify is REFUSED: nonce, algorithms and state stay those of the accepted challenge
+        Rep {
+            name: "long-term/subsequent-SHA256-after-a-refused-438",
+            cfg: cfg(Mech::LongTerm),
+            prefix: vec![
+                s.clone(),
+                d(0, c401(cookie, PasKind::Md5Sha256)),
+                s.clone(),
+                d(1, ok(RMac::Sha)),
+                s.clone(),
+                d(2, c438(NonceKind::Cookie(true, true, 9), PasKind::Md5Sha256, RMac::BadSha)),
+            ],
+            nonce: super::server::nonce_string(cookie),
+            algs: vec![1, 2],
+            realm: REALM,
+            anon: false,
+        },
         Rep {
             name: "long-term/retry-after-438",
             cfg: cfg(Mech::LongTerm),
@@ -523,8 +540,11 @@ pub fn run(ctx: &RunCtx) -> i32 {
                 match check_packet(rp, &apps[*li], outs[0], if indication { 1 } else { 0 }, method, &earlier) {
                     Ok(()) => {
                         // "still unlearned" means: the same attribute kinds as a client that never received anything
-                        if rp.name.starts_with("short-term/unlearned-after-refused") && li % 3 == 0 {
-                            let mut fresh = explore::replay(&rp.cfg, &apps, &Nop, &[]);
+                        if (rp.name.starts_with("short-term/unlearned-after-refused") || rp.name.ends_with("after-a-refused-438")) && li % 3 == 0 {
+                            // (the same history without its last two events: the request that got the refused answer, and
+                            // that answer)
+                            let base: &[Event] = if rp.name.ends_with("after-a-refused-438") { &rp.prefix[..rp.prefix.len() - 2] } else { &[] };
+                            let mut fresh = explore::replay(&rp.cfg, &apps, &Nop, base);
                             let o2 = explore::step(&mut fresh, &Event::SendM { app: *li, method, indication }, None);
                             let kinds = |b: &[u8]| ref_parse(b).map(|p| p.tlvs.iter().map(|t| t.ty).collect::<Vec<u16>>()).unwrap_or_default();
                             let want = o2.events.iter().find_map(|e| if let OEv::Out { bytes, .. } = e { Some(kinds(bytes)) } else { None }).unwrap_or_default();
@@ -577,7 +597,7 @@ pub fn run(ctx: &RunCtx) -> i32 {
         rep,
         Finish {
             level: "model_checking",
-            rule: format!("{} application attribute lists (every sequence of length <= {} over a 12-entry alphabet: two SOFTWARE values, PRIORITY, and pre-populated USERNAME / REALM / NONCE / USERHASH / PASSWORD-ALGORITHM / PASSWORD-ALGORITHMS / MESSAGE-INTEGRITY / MESSAGE-INTEGRITY-SHA256 / FINGERPRINT) x {} credential-state representatives (17 states reached by replaying short histories on the real client: no mechanism; short-term unlearned / still unlearned after a refused MI / SHA256 response (same attribute kinds as the unlearned client) / learned MI / learned SHA256 / configured MI / SHA256; long-term first request / retry after plain 401 / retry after cookie 401 with anonymity and algorithms / the same with unassigned feature bits set in the cookie / subsequent MD5 / subsequent SHA256 / retry after 438 / retry after a second 401 naming the realm in another letter case / subsequent request after a second 401 for another realm; each x fingerprint on/off x both transports; the credential states again with a 70-byte user name / 129-byte password and with a non-ASCII user name / a password that OpaqueString enforcement rewrites) x {{request, indication}} (methods 0x003 and 0xFFF on a subset in the quick tier); every emitted packet is parsed by the independent TLV reader: class / method / fresh id, application attributes first (one per type, first-insertion position, last value), then only the mechanism's credential attributes with the client's (not the application's) values, then at most one MI, SHA256, FINGERPRINT in that order, each verifying under the configured credentials by independent HMAC / CRC, no type twice, FINGERPRINT last when configured; retransmissions along timer runs are byte-identical; clients built with the optional builder calls in each of the six orders (limits 1 and 10) behave alike in every credential state; the largest packets: in every credential state, requests and indications carrying an UNKNOWN-ATTRIBUTES of n codes (alone or after a 4-byte SOFTWARE) with n swept so that the packet size runs through the last 48 bytes up to the largest STUN message (65,552 bytes) and beyond, into a 70,000-byte buffer - emitted whole and well-formed up to 65,552 bytes, refused without a packet beyond", n_lists, max_len, n_reps),
+            rule: format!("{} application attribute lists (every sequence of length <= {} over a 12-entry alphabet: two SOFTWARE values, PRIORITY, and pre-populated USERNAME / REALM / NONCE / USERHASH / PASSWORD-ALGORITHM / PASSWORD-ALGORITHMS / MESSAGE-INTEGRITY / MESSAGE-INTEGRITY-SHA256 / FINGERPRINT) x {} credential-state representatives (18 states reached by replaying short histories on the real client: no mechanism; short-term unlearned / still unlearned after a refused MI / SHA256 response (same attribute kinds as the unlearned client) / learned MI / learned SHA256 / configured MI / SHA256; long-term first request / retry after plain 401 / retry after cookie 401 with anonymity and algorithms / the same with unassigned feature bits set in the cookie / subsequent MD5 / subsequent SHA256 / subsequent SHA256 after a refused 438 (wrong integrity: nonce and attribute kinds as before it) / retry after 438 / retry after a second 401 naming the realm in another letter case / subsequent request after a second 401 for another realm; each x fingerprint on/off x both transports; the credential states again with a 70-byte user name / 129-byte password and with a non-ASCII user name / a password that OpaqueString enforcement rewrites) x {{request, indication}} (methods 0x003 and 0xFFF on a subset in the quick tier); every emitted packet is parsed by the independent TLV reader: class / method / fresh id, application attributes first (one per type, first-insertion position, last value), then only the mechanism's credential attributes with the client's (not the application's) values, then at most one MI, SHA256, FINGERPRINT in that order, each verifying under the configured credentials by independent HMAC / CRC, no type twice, FINGERPRINT last when configured; retransmissions along timer runs are byte-identical; clients built with the optional builder calls in each of the six orders (limits 1 and 10) behave alike in every credential state; the largest packets: in every credential state, requests and indications carrying an UNKNOWN-ATTRIBUTES of n codes (alone or after a 4-byte SOFTWARE) with n swept so that the packet size runs through the last 48 bytes up to the largest STUN message (65,552 bytes) and beyond, into a 70,000-byte buffer - emitted whole and well-formed up to 65,552 bytes, refused without a packet beyond", n_lists, max_len, n_reps),
             assumptions: vec!["which credential attributes each long-term state requires is C08's question; C13 checks form, replacement and verification".into()],
             required_symbols: vec!["no-mechanism", "short-term/unlearned", "short-term/learned-SHA256", "long-term/first-request", "long-term/retry-after-401-cookie", "long-term/subsequent-SHA256", "long-term/retry-after-438", "long-term-indication-refused", "retransmission-identical", "client-builder-routes", "largest-packets", "beyond-the-largest-packet-refused"],
             min_outcomes: 12,
